@@ -94,8 +94,10 @@ def rnd_helper_call(rng):
         # amounts incl. ties beyond the second decimal (their rendering must not depend on who asks)
         kw = {'name': rng.choice(['Wikimedia', 'Émile Zola', 'A B']), 'iban': 'DE33100205000001194700',
               'amount': rng.choice([12.125, 0.375, '2.675', 1, '100.005', 12.3, '0.015', 999999999.99, 20.5, '7.125'])}
-        if rng.random() < 0.5:
+        if rng.random() < 0.85:
             kw['text'] = rng.choice(['Spende', 'Grüße', 'x'])
+        else:
+            kw['reference'] = 'RF18539007547034'
         if rng.random() < 0.3:
             kw['encoding'] = rng.choice([1, 2, 'utf-8', 'iso-8859-1'])
     elif fn == 'make_wifi':
@@ -154,8 +156,13 @@ def interaction_groups():
                               {'eci': True, 'encoding': 'gb2312'}, {'eci': True})])
     groups.append([{'op': 'save', 'content': 'INTERACTION', 'make_kw': {'error': 'Q'}, 'kind': kind, 'kw': dict(skw)}
                    for kind in ('pdf', 'eps', 'txt', 'xpm', 'pam') for skw in ({}, {'scale': 2}, {'border': 1})])
-    groups.append([{'op': 'helper', 'fn': 'make_epc_qr', 'kw': {'name': 'N', 'iban': 'DE33100205000001194700', 'amount': a}}
-                   for a in (12.125, '12.125', 0.375, '2.675', 12.13, 12.12, '100.005', 0.01)])
+    # the helper factories (always replayed, see run_cases): amounts with a tie beyond the second decimal, whose
+    # rendering depends on the decimal context of whoever asks if the library touches that context
+    groups.append([{'op': 'helper', 'fn': 'make_epc_qr', 'kw': {'name': 'N', 'iban': 'DE33100205000001194700', 'amount': a, 'text': 'x'}}
+                   for a in (12.125, '12.125', 0.375, '2.675', 12.13, 12.12, '100.005', 0.01)] +
+                  [{'op': 'helper', 'fn': 'make_wifi', 'kw': {'ssid': 'net', 'password': 'p;w', 'security': 'WPA'}},
+                   {'op': 'helper', 'fn': 'make_geo', 'kw': {'lat': 38.8976763, 'lng': -77.0365297}},
+                   {'op': 'helper', 'fn': 'make_mecard', 'kw': {'name': 'Doe,John', 'email': 'a@example.org'}}])
     k = 900000
     for g in groups:
         for c in g:
@@ -407,7 +414,7 @@ def run_cases(cases, rec, tier='quick', seed='0'):
     plain = [c for c in cases if c['op'] != 'barrier-group']
     groups_i = interaction_groups()
     shard = int(os.environ.get('VERIF_SHARD', '0') or 0)
-    chosen = groups_i if tier == 'thorough' else [groups_i[shard % len(groups_i)]]
+    chosen = groups_i if tier == 'thorough' else [groups_i[shard % (len(groups_i) - 1)], groups_i[-1]]
     for g in chosen:
         plain = plain + g
         rec.count('interaction_core_replayed')
